@@ -48,6 +48,11 @@ const INJECTABLE: [&str; 11] = ["write", "open", "rename", "cleanup_remove", "gz
 struct Case {
     cfg: Cfg,
     prior_run: bool,
+    /// instead of hook-injected faults: each compressed file the fault-free run produces is, one
+    /// at a time, made a symlink to /dev/full when the logger is about to create it (opening
+    /// succeeds, every write really fails with ENOSPC); the symlink is removed when "operations
+    /// succeed again"
+    dev_full: bool,
 }
 
 fn grid() -> Vec<Case> {
@@ -58,9 +63,38 @@ fn grid() -> Vec<Case> {
                 for prior_run in [false, true] {
                     let mut cfg = Cfg::rot(CritK::Size(LIMIT), naming, clean);
                     cfg.mode = mode;
-                    g.push(Case { cfg, prior_run });
+                    g.push(Case {
+                        cfg,
+                        prior_run,
+                        dev_full: false,
+                    });
                 }
             }
+        }
+    }
+    // cleanup in the background thread (run under the scheduler's canonical "background threads
+    // first" schedule, which makes the placement of faults deterministic)
+    for naming in NG {
+        for clean in [CleanK::Log(1), CleanK::Gz(1)] {
+            let mut cfg = Cfg::rot(CritK::Size(LIMIT), naming, clean);
+            cfg.bg_cleanup = true;
+            g.push(Case {
+                cfg,
+                prior_run: false,
+                dev_full: false,
+            });
+        }
+    }
+    // real write failures of the compression target (generous limit: nothing may be dropped)
+    for naming in NG {
+        for mode in [ModeK::Direct, ModeK::BufDont(16)] {
+            let mut cfg = Cfg::rot(CritK::Size(LIMIT), naming, CleanK::Gz(100));
+            cfg.mode = mode;
+            g.push(Case {
+                cfg,
+                prior_run: false,
+                dev_full: true,
+            });
         }
     }
     g
@@ -99,11 +133,25 @@ struct RunObs {
     plain: usize,
     gz: usize,
     errlines: Vec<String>,
+    /// names of the compressed files seen during the run, in order of appearance
+    gz_seen: Vec<String>,
+    dev_full_hit: bool,
 }
 
-fn run(c: &Case, faults: &[FaultSpec]) -> Result<RunObs, String> {
-    let env = Env::new("c19");
+fn run(c: &Case, faults: &[FaultSpec], dev_full: Option<&str>) -> Result<RunObs, String> {
+    let env = if c.cfg.bg_cleanup { Env::in_current("c19") } else { Env::new("c19") };
     env.enter();
+    // the victim becomes a symlink to /dev/full at the moment the logger is about to create it
+    // (planting it earlier would make the collision-free naming choose another name)
+    let planted = std::sync::Arc::new(std::sync::atomic::AtomicBool::new(false));
+    if let Some(n) = dev_full {
+        let (n, planted) = (n.to_string(), std::sync::Arc::clone(&planted));
+        env.ctx.fs.lock().unwrap().on_hit = Some(Box::new(move |site, _occ, _idx, path| {
+            if site == "gz_create" && path.file_name().is_some_and(|f| f.to_string_lossy() == n) && !planted.swap(true, std::sync::atomic::Ordering::SeqCst) {
+                std::os::unix::fs::symlink("/dev/full", path).ok();
+            }
+        }));
+    }
     let mut h = Hist::new(&env, c.cfg.clone());
     if c.prior_run {
         for op in [HOp::W(20), HOp::W(20), HOp::W(20)] {
@@ -122,6 +170,7 @@ fn run(c: &Case, faults: &[FaultSpec]) -> Result<RunObs, String> {
     let mut seen: BTreeSet<String> = BTreeSet::new();
     let mut names_seen = Vec::new();
     let mut exempt = BTreeSet::new();
+    let mut gz_seen: Vec<String> = Vec::new();
     let mut initialised = false;
     let mut all: Vec<HOp> = word();
     let n_word = all.len();
@@ -130,6 +179,12 @@ fn run(c: &Case, faults: &[FaultSpec]) -> Result<RunObs, String> {
         if i == n_word {
             // faults are over
             env.ctx.fs.lock().unwrap().faults.clear();
+            if let Some(n) = dev_full {
+                let p = env.dir.join(n);
+                if std::fs::symlink_metadata(&p).is_ok_and(|m| m.file_type().is_symlink()) {
+                    std::fs::remove_file(&p).ok();
+                }
+            }
         }
         let inj_before = env.ctx.fs.lock().unwrap().injected.len();
         let err_before = env.errlines().len();
@@ -153,6 +208,9 @@ fn run(c: &Case, faults: &[FaultSpec]) -> Result<RunObs, String> {
         }
         ops.push((during.iter().map(|d| d.0).collect(), err_after - err_before, r.is_ok()));
         for n in family::list_names(&env.dir) {
+            if n.ends_with(".gz") && !gz_seen.contains(&n) {
+                gz_seen.push(n.clone());
+            }
             seen.insert(n.strip_suffix(".gz").unwrap_or(&n).to_string());
         }
         names_seen.push(seen.len());
@@ -207,6 +265,8 @@ fn run(c: &Case, faults: &[FaultSpec]) -> Result<RunObs, String> {
         plain,
         gz,
         errlines: env.errlines(),
+        gz_seen,
+        dev_full_hit: planted.load(std::sync::atomic::Ordering::SeqCst),
     })
 }
 
@@ -243,6 +303,12 @@ fn judge_obs(c: &Case, o: &RunObs, reference: Option<&Reference>) -> Result<(), 
     }
     let ending = c.cfg.ending();
     let all_ops: Vec<HOp> = word().into_iter().chain(recovery()).collect();
+    if c.dev_full && o.dev_full_hit && o.errlines.is_empty() {
+        return Err(Fail {
+            clause: "not-reported",
+            detail: "the compressed file could not be written (device full: every write fails with ENOSPC) but nothing was written to the error channel".into(),
+        });
+    }
     // (3) every failure on the logging path is reported during the call it happened in
     for (i, (sites, errs, ok)) in o.ops.iter().enumerate() {
         let inj = sites.len();
@@ -262,7 +328,7 @@ fn judge_obs(c: &Case, o: &RunObs, reference: Option<&Reference>) -> Result<(), 
     // (2) only records whose own write failed may be missing; everything else exactly once, in order
     let texts: Vec<String> = o.lines.iter().map(|l| String::from_utf8_lossy(&l[..l.len() - ending.len()]).to_string()).collect();
     let mut pos = 0usize; // index into texts
-    let may_drop = !matches!(c.cfg.rotation, Some((_, _, CleanK::Never)));
+    let may_drop = c.cfg.rotation.and_then(|r| r.2.limits()).is_some_and(|(k, m)| k + m < 50);
     let mut first = true;
     for f in &o.found {
         let Some(rel) = texts[pos..].iter().position(|t| t == f) else {
@@ -327,29 +393,69 @@ fn occ_class(c: &Case, site: &str, occ: usize) -> &'static str {
 fn cause(c: &Case, f: &[FaultSpec]) -> String {
     let s = &f[0];
     format!(
-        "{}/{}/burst{}/{}/{}{}",
+        "{}/{}/burst{}/{}/{}{}{}",
         s.site,
         occ_class(c, &s.site, s.first_occ),
         s.burst,
         c.cfg.naming().map_or("none", NamingK::short),
         super::c08::mode_class(c.cfg.mode),
+        if c.cfg.bg_cleanup { "/background-cleanup" } else { "" },
         if f.len() > 1 { "/second-order" } else { "" }
     )
 }
 
-fn judge(c: &Case, faults: &[FaultSpec], unit: usize, reference: Option<&Reference>) -> (Option<Violation>, Option<RunObs>) {
+/// Background-cleanup configurations run under the scheduler with the canonical schedule "the
+/// thread that registered last runs first": the cleanup thread does its work as soon as it is
+/// asked to, so fault placements and the per-operation attribution are deterministic.
+fn exec(c: &Case, faults: &[FaultSpec], dev_full: Option<String>) -> Ran<Result<RunObs, String>> {
     let cc = c.clone();
     let ff = faults.to_vec();
-    let case = json!({"unit": unit, "faults": faults.iter().map(|f| json!([f.site, f.first_occ, f.burst])).collect::<Vec<_>>()});
-    let descr = format!("cfg={:?} prior_run={}\n  faults(site, first occurrence, burst)={:?}", c.cfg, c.prior_run, faults.iter().map(|f| (f.site.clone(), f.first_occ, f.burst)).collect::<Vec<_>>());
-    match run_isolated(Duration::from_secs(30), move || run(&cc, &ff)) {
+    if !c.cfg.bg_cleanup {
+        return run_isolated(Duration::from_secs(30), move || run(&cc, &ff, dev_full.as_deref()));
+    }
+    let cfg = crate::sched::SchedCfg {
+        ignore: vec!["flw_pool_pop", "flw_pool_push", "set_max_level", "write", "flush", "open", "rename", "reopen", "cleanup_list", "cleanup_remove", "gz_create", "gz_open", "gz_copy", "gz_finish", "gz_remove", "symlink_remove", "symlink_create"],
+        eager_others: true,
+        ..crate::sched::SchedCfg::default()
+    };
+    let body: std::sync::Arc<dyn Fn(&std::sync::Arc<crate::sched::Sched>) -> Result<RunObs, String> + Send + Sync> = std::sync::Arc::new(move |_s| run(&cc, &ff, dev_full.as_deref()));
+    let ex = crate::sched::run_once(&cfg, &[], Some(crate::hooks::VClock::new(crate::hooks::base_instant())), body);
+    if ex.stalled {
+        return Ran::Done(Err("MACHINERY: scheduled execution stalled".into()));
+    }
+    match (ex.abort, ex.obs) {
+        (Some(crate::sched::Abort::Deadlock(d)), _) => Ran::Done(Err(format!("deadlock: {d}"))),
+        (Some(crate::sched::Abort::Diverged(d)), _) => Ran::Done(Err(format!("MACHINERY: {d}"))),
+        (None, Some(o)) => Ran::Done(o),
+        (None, None) => Ran::Done(Err("MACHINERY: no observation".into())),
+    }
+}
+
+fn judge(c: &Case, faults: &[FaultSpec], unit: usize, reference: Option<&Reference>) -> (Option<Violation>, Option<RunObs>) {
+    judge_df(c, faults, None, unit, reference)
+}
+
+fn judge_df(c: &Case, faults: &[FaultSpec], dev_full: Option<String>, unit: usize, reference: Option<&Reference>) -> (Option<Violation>, Option<RunObs>) {
+    let case = json!({"unit": unit, "dev_full": dev_full, "faults": faults.iter().map(|f| json!([f.site, f.first_occ, f.burst])).collect::<Vec<_>>()});
+    let descr = format!("cfg={:?} prior_run={}\n  faults(site, first occurrence, burst)={:?}{}", c.cfg, c.prior_run, faults.iter().map(|f| (f.site.clone(), f.first_occ, f.burst)).collect::<Vec<_>>(), dev_full.as_ref().map_or(String::new(), |n| format!("\n  {n} is a symlink to /dev/full during the history")));
+    let df_cause = dev_full.as_ref().map(|_| format!("dev-full-gz/{}/{}", c.cfg.naming().map_or("none", NamingK::short), super::c08::mode_class(c.cfg.mode)));
+    let r = exec(c, faults, dev_full);
+    if let Ran::Done(Err(e)) = &r {
+        if e.starts_with("MACHINERY") {
+            return (Some(Violation::new("machinery", "scheduler", format!("{descr}\n  {e}"), case)), None);
+        }
+    }
+    let faults_empty = faults.is_empty() && df_cause.is_none();
+    let cause = |c: &Case, f: &[FaultSpec]| df_cause.clone().unwrap_or_else(|| cause(c, f));
+    let faults_is_empty = faults_empty;
+    match r {
         Ran::Done(Ok(o)) => match judge_obs(c, &o, reference) {
             Ok(()) => (None, Some(o)),
-            Err(f) => (Some(Violation::new(f.clause, if faults.is_empty() { "fault-free".into() } else { cause(c, faults) }, format!("{descr}\n  {}\n  error channel: {:?}", f.detail, o.errlines.iter().take(4).collect::<Vec<_>>()), case)), Some(o)),
+            Err(f) => (Some(Violation::new(f.clause, if faults_is_empty { "fault-free".into() } else { cause(c, faults) }, format!("{descr}\n  {}\n  error channel: {:?}", f.detail, o.errlines.iter().take(4).collect::<Vec<_>>()), case)), Some(o)),
         },
-        Ran::Done(Err(e)) => (Some(Violation::new("run-error", if faults.is_empty() { "fault-free".into() } else { cause(c, faults) }, format!("{descr}\n  {e}"), case)), None),
-        Ran::Panicked(m) => (Some(Violation::new("panic", if faults.is_empty() { "fault-free".into() } else { cause(c, faults) }, format!("{descr}\n  panic: {m}"), case)), None),
-        Ran::Hung => (Some(Violation::new("hang", if faults.is_empty() { "fault-free".into() } else { cause(c, faults) }, descr, case)), None),
+        Ran::Done(Err(e)) => (Some(Violation::new("run-error", if faults_is_empty { "fault-free".into() } else { cause(c, faults) }, format!("{descr}\n  {e}"), case)), None),
+        Ran::Panicked(m) => (Some(Violation::new("panic", if faults_is_empty { "fault-free".into() } else { cause(c, faults) }, format!("{descr}\n  panic: {m}"), case)), None),
+        Ran::Hung => (Some(Violation::new("hang", if faults_is_empty { "fault-free".into() } else { cause(c, faults) }, descr, case)), None),
     }
 }
 
@@ -364,6 +470,27 @@ fn run_unit(tier: &str, unit: usize, out: &mut Out) {
         return;
     }
     let Some(o) = o else { return };
+    if c.dev_full {
+        out.count("dev_full_targets", o.gz_seen.len().min(3) as u64);
+        for n in o.gz_seen.iter().take(3) {
+            let (v, o2) = judge_df(c, &[], Some(n.clone()), unit, None);
+            out.evaluations += 1;
+            out.transitions += 1;
+            out.state(&(unit, n));
+            out.nontrivial(&(unit, n));
+            if let Some(o2) = &o2 {
+                out.outcome(format!("dev-full: error lines={}", o2.errlines.len().min(3)));
+            }
+            if let Some(v) = v {
+                let (v2, _) = judge_df(c, &[], Some(n.clone()), unit, None);
+                match v2 {
+                    Some(v2) if v2.key() == v.key() => out.violation(v),
+                    _ => out.violation(Violation::new("nondeterministic", "replay-diverged", v.detail.clone(), v.case.clone())),
+                }
+            }
+        }
+        return;
+    }
     let reference: Reference = (o.groups.clone(), o.names_seen.clone());
     let mut pairs: Vec<(&'static str, usize)> = Vec::new();
     for (s, occ) in &o.trace {
@@ -440,7 +567,14 @@ fn replay(case: &Value) -> Vec<Violation> {
             burst: f[2].as_u64().unwrap_or(1) as usize,
         })
         .collect();
-    println!("replay C19: cfg={:?} prior_run={} faults={faults:?}", c.cfg, c.prior_run);
+    println!("replay C19: cfg={:?} prior_run={} faults={faults:?} dev_full={:?}", c.cfg, c.prior_run, case["dev_full"]);
+    if let Some(n) = case["dev_full"].as_str() {
+        let (v, o) = judge_df(c, &[], Some(n.to_string()), unit, None);
+        if let Some(o) = o {
+            println!("  files: {:?}\n  lines: {:?}\n  error channel: {:?}", o.names, o.found, o.errlines);
+        }
+        return v.into_iter().collect();
+    }
     let reference: Option<Reference> = judge(c, &[], unit, None).1.map(|o| (o.groups, o.names_seen));
     let (v, o) = judge(c, &faults, unit, reference.as_ref());
     if let Some(o) = o {
